@@ -533,8 +533,8 @@ func ForeignLines(rng *rand.Rand, w *World, loc string) []Line {
 		}
 	}
 	// subnets of a map that is bound to no name: new prefix lengths for CDB's global set
-	for i := 0; i < 1+rng.Intn(3); i++ {
-		cidr := []string{"172.16.0.0/13", "100.64.0.0/10", "2001:db8:aaaa::/77", "198.18.0.0/15", "fc00::/7", "10.1.0.0/17", "198.51.1.0/26"}[rng.Intn(7)]
+	for _, cidr := range pick(rng, []string{"172.16.0.0/13", "100.64.0.0/10", "2001:db8:aaaa::/77", "198.18.0.0/15", "fc00::/7", "10.1.0.0/17", "198.51.1.0/26"}, 1+rng.Intn(3)) {
+		// each subnet once: one subnet is never declared twice with different locations
 		l := []string{loc, "aa", "bb", "zz"}[rng.Intn(4)]
 		b.add(fmt.Sprintf("%%%s,%s,%s", OctalAll(l), cidr, OctalAll("Mz")))
 	}
